@@ -15,6 +15,7 @@
 package ice
 
 import (
+	"bytes"
 	"fmt"
 
 	"github.com/RoaringBitmap/roaring"
@@ -111,6 +112,11 @@ func (d *Dictionary) Close() error {
 // having the the vellum automaton and start/end key range
 func (d *Dictionary) Iterator(a segment.Automaton,
 	startKeyInclusive, endKeyExclusive []byte) segment.DictionaryIterator {
+	if startKeyInclusive != nil && endKeyExclusive != nil &&
+		bytes.Compare(startKeyInclusive, endKeyExclusive) >= 0 {
+		// empty range: vellum would still yield a key equal to the start
+		return emptyDictionaryIterator
+	}
 	if d.fst != nil {
 		rv := &DictionaryIterator{
 			d: d,
